@@ -11,9 +11,9 @@ CONSTANTS
   GetModes = {"set", "only", "nil"}
   Ops = {"delete", "evict", "evictall", "setcap", "close", "closeforce"}
   RecheckRef = TRUE
-  AtomicFin = FALSE
-  RecheckClosed = FALSE
-  CloseExcl = TRUE
+  AtomicFin = TRUE
+  RecheckClosed = TRUE
+  CloseExcl = FALSE
 SYMMETRY Symm
 VIEW View
 INVARIANTS OneLiveValue ConstructOnce FinalizeOnce CallbackOnce CapacityOK RefSane LruHoldsRef CloseOK
